@@ -2,8 +2,8 @@
    source-dependent switch read from the current tree (Gen/Consts.v).  pair0 has a
    single set of socket ops for cooked and raw sockets.  Definitions only. *)
 From Coq Require Import List NArith Bool.
-From NngV Require Import Gen.Consts Proto.Common Proto.PairModel.
+From NngV Require Import Gen.Consts Proto.Common Proto.PairModel Proto.PairGuard.
 
 Definition pair0_init : pair := pair_init.
-Definition pair0_step : pair -> pop -> pair * list pout := pair_step K0 C08_PAIR0_STOP_WRITABLE_FIXED.
+Definition pair0_step : pair -> pop -> pair * list pout := pair_step_g K0 C08_PAIR0_STOP_WRITABLE_FIXED C08_PAIR0_STALE_FIXED.
 Definition pair0_poll : pair -> ppoll := pair_poll.
